@@ -60,7 +60,18 @@ func startRaftNode(id uint64, nodeIds []uint64, storage wal.WAL, logger *log.Ent
 		Logger:          logger,
 	}
 
+	// Bootstrap only a log that has never been used: on a restart the stored term, vote,
+	// commit index and entries must be resumed, not overwritten by a new bootstrap
+	bootstrap := false
 	if len(nodeIds) > 0 {
+		pristine, err := isPristine(storage)
+		if err != nil {
+			return nil, err
+		}
+		bootstrap = pristine
+	}
+
+	if bootstrap {
 		var peers []etcdRaft.Peer
 		for _, nodeId := range nodeIds {
 			peers = append(peers, etcdRaft.Peer{ID: nodeId})
@@ -70,6 +81,22 @@ func startRaftNode(id uint64, nodeIds []uint64, storage wal.WAL, logger *log.Ent
 		// Allow the group to join existing cluster
 		return etcdRaft.RestartNode(raftConfig), nil
 	}
+}
+
+func isPristine(storage wal.WAL) (bool, error) {
+	hardState, _, err := storage.InitialState()
+	if err != nil {
+		return false, err
+	}
+	snapshot, err := storage.Snapshot()
+	if err != nil {
+		return false, err
+	}
+	lastIndex, err := storage.LastIndex()
+	if err != nil {
+		return false, err
+	}
+	return etcdRaft.IsEmptyHardState(hardState) && etcdRaft.IsEmptySnap(snapshot) && lastIndex == 0, nil
 }
 
 func NewRaftGroup(id uuid.UUID, nodeIds []uint64, storage wal.WAL, transport *RaftTransport) (*RaftGroup, error) {
